@@ -91,6 +91,18 @@ CHECKS.update({
    text="All event sequences to depth 4-6 and <=1..2-deviation sequences to depth 80-200 around a closed loop (data, SRTLA ACKs, flush) over data / R-flagged / control datagrams, critical-window hints, bursts, SRTLA ACKs for own and other links' numbers, cumulative ACKs, NAKs (fresh and duplicate), keepalive echoes and housekeeping, in classic mode with the guard off (set through the real control dispatcher), for 2-4 links from three scripted start states. After every client datagram the link that received the unique copy must equal the reference choice (first maximum of window/(in-flight+queued+1) over usable links); after every uplink datagram and housekeeping pass every window must equal the reference windows (+29 / +1 / -100 / bounds / nothing on housekeeping).",
    note="Trusted: glue mirror + fingerprint, the ~60-line integer reference model. Which link a NAK is charged to is read off the loss counters (C05's subject).",
    design="3/C10"),
+ "C05": dict(
+   engine="seqx",
+   technique="exhaustive history exploration of the real NAK attribution path (process_connection_events -> attribute_nak -> SequenceTracker / handle_nak) against an ownership model",
+   text="All histories to depth 4-7 over routing a number to a link (tracked at queue time), duplicate probes (not tracked), per-link flushes (so 'tracked but not yet registered' is reachable), clock advances landing exactly on 4999/5000/5001 ms, NAKs of single numbers / a range through the real parser / an unknown number, cumulative and SRTLA ACKs, link removal and link reset, over numbers b, b+1, b+16384 (same ring slot) and b+2*16384, for 2-4 links. For every NAKed number the per-link (loss count, window, in-flight, burst counters, log) deltas must show at most one charged link, which held the number, with exactly (+1, -100 floored at 1000, -1), never a link other than the one the documented tracker rule remembers; in addition the real tracker's lookups must equal the documented validity rule after every event.",
+   note="Trusted: the ownership model and the model of the tracker validity rule (same number, age <= 5000 ms, slot not overwritten, link present). The byte-level path is C09's, the real apply_connection_changes is C19's.",
+   design="3/C05"),
+ "C14": dict(
+   engine="seqx+world",
+   technique="exhaustive event-sequence exploration of the housekeeping arm with a cadence / frame-content monitor on the wire, plus exhaustive histories of the real RTT sample filter and smoother",
+   text="(A) all sequences to depth 3-7 and <=1..2-deviation sequences to depth 12-90 (default: a pass every 1000 ms) over housekeeping passes at 990/1000/1010/2000 ms, keepalive echoes (timely, late > 10 s, future, zero timestamp, truncated), client bursts left queued, flush ticks, NAKs, duplicate REG3, receiver close and a 5 s clock jump, from established / live / timed-out start states for 2 and 4 links: never two consecutive passes without a keepalive on a connected, not-timed-out link; every keepalive frame is checked field by field against the link's pre-pass values. (B) all sequences to depth 6-8 over probe arming, echoes with ts in {now, now-1, now-20, now-10000, now-10001, now+5, 0}, truncated and over-long echoes, reset and a clock jump on the real tracker: a sample iff probe outstanding, >= 10 bytes, 0 < now-ts <= 10000; all sample sequences over {1,2,50,9999,10000}^<=8..10 through the real smoother stay finite and non-negative.",
+   note="Trusted: glue mirror + fingerprint; the monitors. 'Two housekeeping periods' is judged as 'two consecutive passes without a keepalive'.",
+   design="3/C14"),
 })
 
 NOT_YET = {
